@@ -246,8 +246,21 @@ def run_vh(args, timeout=3600, env_extra=None, stdin=None):
     return p.returncode, res, p.stdout
 
 
+class HarnessCrash(Exception):
+    """The harness process died while running a case against the code under test: that is an
+    observation about the code (abort, stack overflow, signal), not a tool error."""
+
+    def __init__(self, args, rc, inflight, stderr):
+        super().__init__(f"harness {args[0]} died rc={rc}")
+        self.args_ = args
+        self.rc = rc
+        self.inflight = inflight
+        self.stderr = stderr
+
+
 def run_vh_parallel(jobs, timeout=3600):
-    """jobs: list of arg lists.  Runs up to 14 at a time.  Returns list of result dicts."""
+    """jobs: list of arg lists.  Runs up to 14 at a time.  Returns list of result dicts.
+    A job that dies without a RESULT yields {"crashed": True, "rc":…, "inflight": case} instead."""
     procs = []
     results = [None] * len(jobs)
     pending = list(enumerate(jobs))
@@ -256,7 +269,9 @@ def run_vh_parallel(jobs, timeout=3600):
     while pending or running:
         while pending and len(running) < maxpar:
             i, a = pending.pop(0)
-            p = subprocess.Popen([VH] + list(a), stdout=subprocess.PIPE, stderr=subprocess.PIPE, text=True)
+            infl = os.path.join(tempfile.gettempdir(), f"vh-inflight-{os.getpid()}-{i}.json")
+            p = subprocess.Popen([VH] + list(a), stdout=subprocess.PIPE, stderr=subprocess.PIPE, text=True,
+                                 env=dict(os.environ, VH_INFLIGHT=infl))
             running.append((i, p, time.time()))
         still = []
         for i, p, t in running:
@@ -271,10 +286,33 @@ def run_vh_parallel(jobs, timeout=3600):
             for line in out.splitlines():
                 if line.startswith("RESULT "):
                     res = json.loads(line[7:])
+            infl = os.path.join(tempfile.gettempdir(), f"vh-inflight-{os.getpid()}-{i}.json")
             if res is None:
-                log(out[-2000:])
-                log(err[-2000:])
-                raise ToolError(f"harness job {jobs[i][0]} produced no RESULT (rc={p.returncode})")
+                case = None
+                if os.path.exists(infl):
+                    try:
+                        case = json.load(open(infl))
+                    except Exception:
+                        case = None
+                if p.returncode is not None and (p.returncode < 0 or p.returncode in (101, 134)) and case is not None:
+                    os.makedirs(REPLAYS, exist_ok=True)
+                    import hashlib
+                    hname = hashlib.sha1(json.dumps(case, sort_keys=True).encode()).hexdigest()[:16]
+                    rpath = os.path.join(REPLAYS, f"crash-{jobs[i][0]}-{hname}.json")
+                    with open(rpath, "w") as fh:
+                        json.dump({"kind": "harness-crash", "subcommand": jobs[i][0], "args": list(jobs[i]), "rc": p.returncode,
+                                   "record": case, "doc": case, "case": case, "stderr": err[-500:]}, fh, indent=1)
+                    mism = {"harness_died": True, "rc": p.returncode, "stderr": err[-300:]}
+                    res = {"crashed": True, "rc": p.returncode, "inflight": case, "stderr": err[-500:], "evaluations": 1, "steps": 0,
+                           "violations": [{"replay": rpath, "mismatch": mism, "sizes": case.get("sizes") if isinstance(case, dict) else None,
+                                           "record": case, "x": case.get("x") if isinstance(case, dict) else None}],
+                           "samples": [], "known": {}, "extra": {}, "distinct": 0}
+                else:
+                    log(out[-2000:])
+                    log(err[-2000:])
+                    raise ToolError(f"harness job {jobs[i][0]} produced no RESULT (rc={p.returncode})")
+            if os.path.exists(infl):
+                os.remove(infl)
             results[i] = res
         running = still
         if running:
